@@ -44,6 +44,8 @@ let show_cfg_error e =
   let body = match e with
     | CLabelsNotDefined ls -> "labelsnotdefined [" ^ String.concat "," (List.sort compare (List.map (fun l -> enc_str l.wv) ls)) ^ "]"
     | CDuplicateLabel l -> "duplicatelabel " ^ enc_str l.wv
+    | CLabelWithoutInstruction l -> "labelwithoutinstruction " ^ enc_str l.wv
+    | CFunctionWithoutReturn (_, ls) -> "functionwithoutreturn [" ^ String.concat "," (List.sort compare (List.map (fun l -> enc_str l.wv) ls)) ^ "]" 
     | CUnexpectedError -> "unexpectederror" in
   "CE(" ^ body ^ " @" ^ show_loc (cfg_error_loc e) ^ ")"
 
